@@ -13,8 +13,13 @@
                         optionally preceded by one MergedSpacer token (the
                         FIRST PASS of read_args only)
      DMath k o body c   a math region  $..$  $$..$$  \(..\)  \[..\]
+     DEnv e b ng body e2 en ng2
+                        a named environment  \begin{name} body \end{name}
+                        (ng, ng2 the two name groups, brace arguments; no
+                        further arguments of \begin; not a math environment
+                        name, not a verbatim name)
      Arg sp k o body c  an argument group of kind k with its optional spacer
-   NOT covered: named environments, \item, fixed-signature commands
+   NOT covered: \item, fixed-signature commands
    (\section, \textbf, ...: Tables.signatures), the second argument pass
    (\a{x}[y]), \newcommand-style special commands, verbatim environments,
    unclosed constructs (tolerant mode).
@@ -22,7 +27,13 @@
    `flat d` is the token list of d, `tree d` the node the reader must build:
      EText t / EGroup GBrace (map tree body) (tpos o) /
      ECmd (strip (ttext n)) (map tree_arg args) [] (tpos e) /
-     EMath k (map tree body) (tpos o);  an argument is EGroup k .. (tpos o).
+     EMath k (map tree body) (tpos o) /
+     ENamed (strip (arg_string (tree_arg ng))) [] (map tree body) (tpos e);
+   an argument is EGroup k (map tree body) (tpos o).
+
+   Parameters of `wf`: SK, the names of the environments read verbatim
+   (Tables.skip_env_names ++ the user's list: all_skip user), and mm, "read in
+   math mode" (recorded for \item, which the present grammar does not have).
 
    The well-formedness conditions were found by doing the proof; each is
    stated below as an equation (the C02pp_wf_ theorems) with the behaviour of the code that
@@ -82,16 +93,16 @@ Print Assumptions C02pp_fuel_independent.
 (* a leaf is a token of a category on which read_expr falls through to
    TexText: not Escape, not GroupBegin, not one of the four math openers
    (AttachProofs.leaf_cat_table).  [forced by: the dispatch of read_expr] *)
-Theorem C02pp_wf_leaf : forall t, wf (DLeaf t) = leaf_cat (tcat t).
+Theorem C02pp_wf_leaf : forall SK mm t, wf SK mm (DLeaf t) = leaf_cat (tcat t).
 Proof. reflexivity. Qed.
 
 (* a brace group: `o` a GroupBegin token, `c` a GroupEnd token, the body a
    well-formed sequence for the loop closed by `}`.
    [forced by: read_expr dispatches on GroupBegin; read_arg_loop stops at the
    FIRST token for which is_group_end holds] *)
-Theorem C02pp_wf_group : forall o b c,
-  wf (DGroup o b c) =
-  is_tc TGroupBegin o && is_group_end GBrace c && seq_wf wf (CGroup GBrace) b [c].
+Theorem C02pp_wf_group : forall SK mm o b c,
+  wf SK mm (DGroup o b c) =
+  is_tc TGroupBegin o && is_group_end GBrace c && wf_seq SK false (CGroup GBrace) b [c].
 Proof. exact wf_group. Qed.
 
 (* a command: `e` an Escape token directly followed by the name token `n`
@@ -99,9 +110,10 @@ Proof. exact wf_group. Qed.
    arguments, every argument well-formed.
    [forced by: read_command takes the token after the escape as the name
    whatever it is; read_args runs the bracket loop before the brace loop] *)
-Theorem C02pp_wf_cmd : forall e n args,
-  wf (DCmd e n args) =
-  is_tc TEscape e && name_ok n && brackets_first (map arg_kind args) && forallb wf_arg args.
+Theorem C02pp_wf_cmd : forall SK mm e n args,
+  wf SK mm (DCmd e n args) =
+  is_tc TEscape e && name_ok n && brackets_first (map arg_kind args) &&
+  forallb (wf_arg SK mm) args.
 Proof. exact wf_cmd. Qed.
 
 (* the name: not in the fixed-signature table (those read a fixed number of
@@ -122,10 +134,10 @@ Proof. reflexivity. Qed.
    (read_spacer skips exactly one such token), `o` opens a group of kind k,
    `c` is the closer of kind k, the body is a well-formed sequence for the
    loop closed by that closer. *)
-Theorem C02pp_wf_arg : forall sp k o b c,
-  wf_arg (Arg sp k o b c) =
+Theorem C02pp_wf_arg : forall SK mm sp k o b c,
+  wf_arg SK mm (Arg sp k o b c) =
   match sp with Some s => is_tc TMergedSpacer s | None => true end &&
-  opens_group_kind k o && is_group_end k c && seq_wf wf (CGroup k) b [c].
+  opens_group_kind k o && is_group_end k c && wf_seq SK mm (CGroup k) b [c].
 Proof. exact wf_arg_eq. Qed.
 
 (* a math region: `o` the begin token of kind k, `c` an end token of kind k
@@ -133,25 +145,59 @@ Proof. exact wf_arg_eq. Qed.
    sequence for the loop closed by that end token.
    [forced by: MATH_TOKEN_TO_ENV dispatch; read_math_env stops at the FIRST
    token of the end category - so `$` cannot start an element of a `$` body] *)
-Theorem C02pp_wf_math : forall k o b c,
-  wf (DMath k o b c) = opens_math_kind k o && is_math_end k c && seq_wf wf (CMath k) b [c].
+Theorem C02pp_wf_math : forall SK mm k o b c,
+  wf SK mm (DMath k o b c) =
+  opens_math_kind k o && is_math_end k c && wf_seq SK true (CMath k) b [c].
 Proof. exact wf_math. Qed.
+
+(* an environment:
+   - `e` an Escape token, `b` the name token `begin`        [read_expr's test]
+   - ng a well-formed BRACE argument: the name group.  Its string, stripped,
+     is the environment name (whatever the group contains)
+   - the name is not a math environment name (those switch the body to math
+     mode) and not in SK (those bodies are not parsed at all)
+   - what follows the name group - the body, then `\end` - satisfies the
+     follow condition of a command with the one brace argument ng: \begin is
+     read by read_command, which takes every further group as an argument
+     (a body starting with `{`, ` {` or `[` would lose that group)
+   - the body is a well-formed sequence for the environment loop (nothing
+     closes it but `\end`; a command named `end` is not an element: name_ok)
+   - `e2` an Escape token, `en` the name token `end`, ng2 a well-formed brace
+     argument whose string EQUALS the environment name (read_env compares
+     them; on a mismatch strict mode raises, tolerant mode leaves `\end`
+     unread) *)
+Theorem C02pp_wf_env : forall SK mm e b ng body e2 en ng2,
+  wf SK mm (DEnv e b ng body e2 en ng2) =
+  is_tc TEscape e && str_eqb (ttext b) s_begin &&
+  wf_arg SK mm ng && is_brace_arg ng &&
+  negb (mem_str (env_name ng) Tables.math_env_names) && negb (mem_str (env_name ng) SK) &&
+  cmd_follow [ng] (flat_list body ++ [e2]) &&
+  wf_seq SK mm CEnv body [e2; en] &&
+  is_tc TEscape e2 && str_eqb (ttext en) s_end &&
+  wf_arg SK mm ng2 && is_brace_arg ng2 &&
+  str_eqb (arg_string (tree_arg ng2)) (env_name ng).
+Proof. exact wf_env. Qed.
+
+Theorem C02pp_env_name : forall ng, env_name ng = strip (arg_string (tree_arg ng)).
+Proof. reflexivity. Qed.
 
 (* a sequence read by a loop of context x and followed by `rest`:
    every element (1) does not START with the closer of the loop (CTop: nothing
    closes; CGroup k: the end token of k; CMath k: the end token of k) - the
    loop tests the first token of every element before reading it; (2) is
    well-formed; (3) is followed by tokens its follow condition allows. *)
-Theorem C02pp_wf_seq : forall x d ds rest,
-  wf_seq x (d :: ds) rest =
-  negb (closes x (dhead d)) && wf d && follows_ok d (flat_list ds ++ rest) && wf_seq x ds rest.
-Proof. intros. exact (seq_wf_cons wf x d ds rest). Qed.
+Theorem C02pp_wf_seq : forall SK mm x d ds rest,
+  wf_seq SK mm x (d :: ds) rest =
+  negb (closes x (dhead d)) && wf SK mm d && follows_ok d (flat_list ds ++ rest) &&
+  wf_seq SK mm x ds rest.
+Proof. intros. exact (seq_wf_cons (wf SK mm) x d ds rest). Qed.
 
 Theorem C02pp_closes : forall x t,
   closes x t = match x with
                | CTop => false
                | CGroup k => is_group_end k t
                | CMath k => is_math_end k t
+               | CEnv => false
                end.
 Proof. reflexivity. Qed.
 
@@ -169,9 +215,22 @@ Theorem C02pp_follows_ok : forall e n args rest,
    else stopsb TBracketBegin rest).
 Proof. reflexivity. Qed.
 
+(* after `\end{name}` the same: read_env PEEKS at `\end` with read_command,
+   which reads every following group as an argument of `\end` before the
+   name is compared; the groups are then left unread (the code re-reads only
+   the name group), so this condition is sufficient, not necessary - e.g.
+   `\begin{q}x\end{q}{y}` is read as the grammar would say, but an unclosed
+   `{` after `\end{q}` makes the PEEK fail in strict mode. *)
+Theorem C02pp_follows_ok_env : forall e b ng body e2 en ng2 rest,
+  follows_ok (DEnv e b ng body e2 en ng2) rest = cmd_follow [ng2] rest.
+Proof. reflexivity. Qed.
+
 Theorem C02pp_follows_ok_other : forall d rest,
-  match d with DCmd _ _ _ => True | _ => follows_ok d rest = true end.
-Proof. intros [t|o b c|e n a|k o b c] rest; exact I || reflexivity. Qed.
+  match d with
+  | DCmd _ _ _ | DEnv _ _ _ _ _ _ _ => True
+  | _ => follows_ok d rest = true
+  end.
+Proof. intros [t|o b c|e n a|k o b c|e b ng body e2 en ng2] rest; exact I || reflexivity. Qed.
 
 Theorem C02pp_stopsb : forall k toks,
   stopsb k toks =
@@ -180,19 +239,28 @@ Proof. reflexivity. Qed.
 
 (* the follow conditions cannot be dropped *)
 Theorem C02pp_without_follow_refuted :
-  exists ds, forallb wf ds = true /\
+  exists ds, forallb (wf (all_skip []) false) ds = true /\
              parse_tokens (flat_list ds) true [] <> Ok (ERoot (map tree ds)).
 Proof. exact PP_without_follow_refuted. Qed.
 Print Assumptions C02pp_without_follow_refuted.
 
 Theorem C02pp_first_pass_follow_only_refuted :
   exists e n args ds,
-    wf (DCmd e n args) = true /\ forallb wf ds = true /\
+    wf (all_skip []) false (DCmd e n args) = true /\
+    forallb (wf (all_skip []) false) ds = true /\
     existsb is_brace_arg args = true /\ stopsb TGroupBegin (flat_list ds) = true /\
     parse_tokens (flat_list (DCmd e n args :: ds)) true []
     <> Ok (ERoot (map tree (DCmd e n args :: ds))).
 Proof. exact PP_first_pass_follow_only_refuted. Qed.
 Print Assumptions C02pp_first_pass_follow_only_refuted.
+
+(* the condition on SK cannot be dropped: with `q` in the user's skip list
+   the environment q of example 3 is read verbatim *)
+Theorem C02pp_env_in_skip_list_refuted :
+  wf_seq (all_skip []) false CTop ex3_doc [] = true /\
+  parse_tokens (flat_list ex3_doc) true [s_q] <> Ok (ERoot (map tree ex3_doc)).
+Proof. exact PP_env_in_skip_list_refuted. Qed.
+Print Assumptions C02pp_env_in_skip_list_refuted.
 
 (* ------------------------------------------------- Stage 2: completeness *)
 
@@ -200,8 +268,9 @@ Print Assumptions C02pp_first_pass_follow_only_refuted.
    returns exactly the expected node and exactly the rest - in every mode,
    both tolerances, any skip list, any sufficient fuel *)
 Theorem C02pp_expr :
-  forall d skip strict m rest f,
-    wf d = true -> follows_ok d rest = true ->
+  forall SK d skip strict m rest f,
+    mode_is_special m = false -> sub_skip SK skip ->
+    wf SK (mode_is_math m) d = true -> follows_ok d rest = true ->
     (3 * length (flat d ++ rest) + 1 <= f)%nat ->
     read_expr f skip strict m (flat d ++ rest) = Ok (tree d, rest).
 Proof. exact PP_expr. Qed.
@@ -209,8 +278,9 @@ Print Assumptions C02pp_expr.
 
 (* the body of a group: the elements one by one, in order, then the closer *)
 Theorem C02pp_group_body :
-  forall ds k pos strict m acc c rest f,
-    wf_seq (CGroup k) ds (c :: rest) = true -> is_group_end k c = true ->
+  forall SK ds k pos strict m acc c rest f,
+    mode_is_special m = false ->
+    wf_seq SK (mode_is_math m) (CGroup k) ds (c :: rest) = true -> is_group_end k c = true ->
     (3 * length (flat_list ds ++ c :: rest) + 2 <= f)%nat ->
     read_arg_loop f k pos strict m acc (flat_list ds ++ c :: rest)
     = Ok (EGroup k (acc ++ map tree ds) pos, rest).
@@ -219,8 +289,8 @@ Print Assumptions C02pp_group_body.
 
 (* the body of a math region *)
 Theorem C02pp_math_body :
-  forall ds k pos strict acc c rest f,
-    wf_seq (CMath k) ds (c :: rest) = true -> is_math_end k c = true ->
+  forall SK ds k pos strict acc c rest f,
+    wf_seq SK true (CMath k) ds (c :: rest) = true -> is_math_end k c = true ->
     (3 * length (flat_list ds ++ c :: rest) + 2 <= f)%nat ->
     read_math_loop f k pos strict acc (flat_list ds ++ c :: rest)
     = Ok (EMath k (acc ++ map tree ds) pos, rest).
@@ -228,13 +298,13 @@ Proof. exact PP_seq_math. Qed.
 Print Assumptions C02pp_math_body.
 
 (* C02 for the covered sub-grammar: the token list of a well-formed sequence
-   of constructs parses - strictly and tolerantly, whatever the user's skip
-   list - to the root whose children are exactly the expected nodes, once
-   each and in order, with names, argument kinds / order / contents and
-   nesting as written *)
+   of constructs parses - strictly and tolerantly, for every user skip list
+   that does not name one of its environments - to the root whose children
+   are exactly the expected nodes, once each and in order, with names,
+   argument kinds / order / contents and nesting as written *)
 Theorem C02_structure_partial :
   forall ds strict user,
-    wf_seq CTop ds [] = true ->
+    wf_seq (all_skip user) false CTop ds [] = true ->
     parse_tokens (flat_list ds) strict user = Ok (ERoot (map tree ds)).
 Proof. exact PP_parse_tokens. Qed.
 Print Assumptions C02_structure_partial.
@@ -243,14 +313,14 @@ Print Assumptions C02_structure_partial.
    a spacer, names are unpadded and the structural tokens carry their
    delimiter text (tok_wf: true of all tokenizer output, Proofs/ConsBridge.v) *)
 Theorem C02pp_estr_tree :
-  forall d, wf d = true -> printable d = true -> Forall tok_wf (flat d) ->
+  forall SK mm d, wf SK mm d = true -> printable d = true -> Forall tok_wf (flat d) ->
     estr (tree d) = texts (flat d).
 Proof. exact estr_tree. Qed.
 Print Assumptions C02pp_estr_tree.
 
 Theorem C02_print_parse_print :
   forall ds strict user,
-    wf_seq CTop ds [] = true -> forallb printable ds = true ->
+    wf_seq (all_skip user) false CTop ds [] = true -> forallb printable ds = true ->
     Forall tok_wf (flat_list ds) ->
     exists t, parse_tokens (flat_list ds) strict user = Ok t /\
               estr t = texts (flat_list ds).
@@ -265,7 +335,7 @@ Print Assumptions C02_print_parse_print.
 Example C02pp_ex1 :
   ex1_src = [92;97;91;120;93;123;121;32;92;98;123;122;125;125;32;123;103;32;36;109;95;49;36;125;32;116]%N /\
   tokens_of_string ex1_src = (flat_list ex1_doc, TEnd) /\
-  wf_seq CTop ex1_doc [] = true /\
+  wf_seq (all_skip []) false CTop ex1_doc [] = true /\
   parse ex1_src true [] = Ok (ERoot (map tree ex1_doc)) /\
   parse ex1_src false [] = Ok (ERoot (map tree ex1_doc)).
 Proof. repeat split; vm_compute; reflexivity. Qed.
@@ -275,9 +345,23 @@ Proof. repeat split; vm_compute; reflexivity. Qed.
 Example C02pp_ex2 :
   ex2_src = [123;97;32;123;98;32;36;99;36;125;125;32;92;100;91;101;93;123;102;125;103]%N /\
   tokens_of_string ex2_src = (flat_list ex2_doc, TEnd) /\
-  wf_seq CTop ex2_doc [] = true /\ forallb printable ex2_doc = true /\
+  wf_seq (all_skip []) false CTop ex2_doc [] = true /\ forallb printable ex2_doc = true /\
   Forall tok_wf (flat_list ex2_doc) /\
   texts (flat_list ex2_doc) = ex2_src.
+Proof.
+  repeat split; try (vm_compute; reflexivity).
+  apply tok_wfb_all. vm_compute. reflexivity.
+Qed.
+
+(* \begin{q}a\begin{r}b{c}$d$\end{r} \e{f}\end{q}z : an environment in an
+   environment, with a group, a math region and a command inside *)
+Example C02pp_ex3 :
+  ex3_src = [92;98;101;103;105;110;123;113;125;97;92;98;101;103;105;110;123;114;125;98;123;99;125;36;100;36;92;101;110;100;123;114;125;32;92;101;123;102;125;92;101;110;100;123;113;125;122]%N /\
+  tokens_of_string ex3_src = (flat_list ex3_doc, TEnd) /\
+  wf_seq (all_skip []) false CTop ex3_doc [] = true /\ forallb printable ex3_doc = true /\
+  Forall tok_wf (flat_list ex3_doc) /\
+  parse ex3_src true [] = Ok (ERoot (map tree ex3_doc)) /\
+  estr (ERoot (map tree ex3_doc)) = ex3_src.
 Proof.
   repeat split; try (vm_compute; reflexivity).
   apply tok_wfb_all. vm_compute. reflexivity.
@@ -286,13 +370,13 @@ Qed.
 (* hypotheses of the element / body theorems on pieces of ex1 *)
 Example C02pp_ex_expr :
   match ex1_doc with
-  | d :: ds => wf d = true /\ follows_ok d (flat_list ds) = true
+  | d :: ds => wf (all_skip []) false d = true /\ follows_ok d (flat_list ds) = true
   | [] => False
   end.
 Proof. exact ex_PP_expr_hyps. Qed.
 Example C02pp_ex_group_body :
   let t i := nth i ex1_toks tok0 in
-  wf_seq (CGroup GBrace)
+  wf_seq (all_skip []) false (CGroup GBrace)
          [DLeaf (t 6%nat); DCmd (t 7%nat) (t 8%nat)
                                 [Arg None GBrace (t 9%nat) [DLeaf (t 10%nat)] (t 11%nat)]]
          (t 12%nat :: skipn 13 ex1_toks) = true /\
@@ -300,6 +384,7 @@ Example C02pp_ex_group_body :
 Proof. exact ex_PP_seq_group_hyps. Qed.
 Example C02pp_ex_math_body :
   let t i := nth i ex1_toks tok0 in
-  wf_seq (CMath MInline) [DLeaf (t 17%nat)] (t 18%nat :: skipn 19 ex1_toks) = true /\
+  wf_seq (all_skip []) true (CMath MInline) [DLeaf (t 17%nat)]
+         (t 18%nat :: skipn 19 ex1_toks) = true /\
   is_math_end MInline (t 18%nat) = true.
 Proof. exact ex_PP_seq_math_hyps. Qed.
